@@ -7,6 +7,7 @@ import (
 	"time"
 
 	"github.com/miekg/dns"
+	mcache "github.com/semihalev/sdns/middleware/cache"
 
 	"verifsim/authsim"
 	"verifsim/kit"
@@ -43,6 +44,9 @@ type C01Scenario struct {
 	World   world.Spec  `json:"world"`
 	Ops     []C01Op     `json:"ops"`
 	Tampers []C01Tamper `json:"tampers,omitempty"`
+	// Wire: UDP questions enter as datagrams through the simulated UDP engine, so that answers
+	// served from cache (re-asked names, alias chains) come from the byte path and its composer.
+	Wire bool `json:"wire,omitempty"`
 }
 
 func init() {
@@ -65,6 +69,7 @@ func init() {
 			Stub: []string{"kernel sockets (simnet)", "authoritative servers (authsim)", "disk (simdisk)"},
 		},
 		Gen:      func(r *kit.RNG, tier string) any { return genC01(r) },
+		Warmup:   true, // a quarter of the scenarios run the UDP engine (wire ingress): one P, and a warm-up scenario per process
 		Blank:    func() any { return &C01Scenario{} },
 		Run:      func(sc any, tr *kit.Trace) *kit.Result { return runC01(sc.(*C01Scenario), tr) },
 		Shrink:   shrinkC01,
@@ -164,6 +169,29 @@ func genC01(r *kit.RNG) *C01Scenario {
 			sc.Tampers = append(sc.Tampers, t)
 		}
 	}
+	// (drawn last so that the rest of the generated scenario is what it was before this mode existed)
+	sc.Wire = r.Chance(0.25)
+	if sc.Wire {
+		// alias recipe for the byte path: a cross-zone alias and its target get cached as
+		// separate entries, then the alias is asked again so that the reply is composed from
+		// them (the composed reply is only as authentic as its weakest hop)
+		var exts []string
+		for _, z := range sc.World.Zones {
+			for _, rec := range z.Records {
+				if f := strings.Fields(rec); len(f) == 5 && f[3] == "CNAME" && strings.HasPrefix(f[0], "ext.") {
+					exts = append(exts, f[0]+"|"+f[4])
+				}
+			}
+		}
+		if len(exts) > 0 {
+			e := strings.SplitN(kit.Pick(r, exts), "|", 2)
+			do, ad := r.Chance(0.6), r.Chance(0.6)
+			rec := []C01Op{{Name: e[1], Qtype: dns.TypeA, DO: do, AD: ad, GapMs: 500}, {Name: e[0], Qtype: dns.TypeA, DO: do, AD: ad, GapMs: 500},
+				{Name: e[0], Qtype: dns.TypeA, DO: do, AD: ad, GapMs: 1000}, {Name: e[0], Qtype: dns.TypeA, DO: r.Chance(0.5), AD: r.Chance(0.5), NoEDNS: r.Chance(0.3), GapMs: 2000}}
+			at := r.Intn(len(sc.Ops) + 1)
+			sc.Ops = append(sc.Ops[:at:at], append(rec, sc.Ops[at:]...)...)
+		}
+	}
 	return sc
 }
 
@@ -244,8 +272,29 @@ type hookRec struct {
 func execC01(sc *C01Scenario, tr *kit.Trace, res *kit.Result) { execRes(sc, tr, res, "C01", oracleC01) }
 
 func execRes(sc *C01Scenario, tr *kit.Trace, res *kit.Result, pid string, oracle func(o *resOp) bool) {
-	w := world.NewRes(&sc.World, sc.Seed, tr)
-	defer w.Close()
+	var w *world.Res
+	var g *world.Ing
+	if sc.Wire {
+		var err error
+		g, err = world.NewIng(&sc.World, world.IngSpec{Workers: 64, Queue: 64, Sockets: 1, Spare: 64}, sc.Seed, tr)
+		if err != nil {
+			res.Fail(pid+"/harness", "listener: %v", err)
+			return
+		}
+		defer g.Close()
+		w = g.Res
+		wireBefore := mcache.VerifWireCounters()
+		defer func() {
+			for k, v := range mcache.VerifWireCounters() {
+				if d := v - wireBefore[k]; d > 0 {
+					res.Probes["wire-ladder:"+k] += int(d)
+				}
+			}
+		}()
+	} else {
+		w = world.NewRes(&sc.World, sc.Seed, tr)
+		defer w.Close()
+	}
 	zones := w.World.Zones
 	// attacker zone: a signed zone other than the target; other: any other signed zone
 	pickOther := func(not string) *authsim.Zone {
@@ -344,7 +393,30 @@ func execRes(sc *C01Scenario, tr *kit.Trace, res *kit.Result, pid string, oracle
 		}
 		sentBefore := w.Net.SentCount()
 		t0 := time.Now()
-		c := w.Ask(netip.MustParseAddrPort("10.9.0.1:40000"), proto, q)
+		client := netip.MustParseAddrPort("10.9.0.1:40000")
+		var replies []*dns.Msg
+		if g != nil && !op.TCP {
+			q.Id = uint16(5000 + i)
+			raw, perr := q.Pack()
+			if perr != nil {
+				res.Fail(pid+"/harness", "pack: %v", perr)
+				return
+			}
+			seenOut := len(g.K.Out)
+			g.Send(0, client, raw)
+			kit.Settle()
+			for waited := 0; waited < 250 && len(g.K.Out) == seenOut; waited++ {
+				kit.SleepSettle(100 * time.Millisecond)
+			}
+			for _, snt := range g.K.Out[seenOut:] {
+				rm := new(dns.Msg)
+				if snt.To == client && rm.Unpack(snt.Data) == nil && rm.Id == q.Id {
+					replies = append(replies, rm)
+				}
+			}
+		} else {
+			replies = w.Ask(client, proto, q).Replies
+		}
 		lat := time.Since(t0)
 		kit.SleepSettle(3 * time.Second) // let detached helpers finish inside this op's window
 		upstream := w.Net.SentCount() - sentBefore
@@ -358,11 +430,11 @@ func execRes(sc *C01Scenario, tr *kit.Trace, res *kit.Result, pid string, oracle
 		if len(fired) > 0 {
 			everTampered = true
 		}
-		if len(c.Replies) != 1 {
-			res.Fail(pid+"/reply-count", "op %d %s/%s: %d replies", i, op.Name, dns.TypeToString[op.Qtype], len(c.Replies))
+		if len(replies) != 1 {
+			res.Fail(pid+"/reply-count", "op %d %s/%s: %d replies", i, op.Name, dns.TypeToString[op.Qtype], len(replies))
 			return
 		}
-		m := c.Replies[0]
+		m := replies[0]
 		rclass := dns.RcodeToString[m.Rcode]
 		if m.AuthenticatedData {
 			rclass += "+AD"
